@@ -84,7 +84,9 @@ class Tape:
     def _random(self):
         m = self._mode("u")
         v = _REAL["random"]()
-        if m == "tiny":
+        if m == "zero":      # random.random() draws from [0, 1): 0.0 is a legal outcome (scripted cells only)
+            v = 0.0
+        elif m == "tiny":
             v = TINY
         elif m == "lo":
             v = LO
